@@ -32,6 +32,7 @@ type Workload struct {
 	Isolated  bool // each case in its own OS process (resource shapes)
 	NondetIsViolation bool // a determinism mismatch is the violation itself (C10)
 	NoRecheck bool
+	ShrinkEvals int // cap on shrink evaluations (0: default)
 }
 
 type Property struct {
@@ -437,6 +438,9 @@ func reportViolation(prop *Property, tier string, seed int64, v violation) (stri
 	maxEvals := 1500
 	if isolated {
 		maxEvals = 60
+	}
+	if w.ShrinkEvals > 0 {
+		maxEvals = w.ShrinkEvals
 	}
 	evals := 0
 	if v.Class != "nondeterministic" {
